@@ -644,8 +644,13 @@ def enumerate_cases(ctx, tlc, module="Codec"):
                           % res.invariant, replay={"trace": [s for _, s in res.trace()]},
                           signature="spec:" + str(res.invariant))
             return None
-        if not any(s["expect"] == "ok" for s in states):
-            raise tlc.MachineryError("vacuity: action Case never taken in run %s" % label)
+        seen = {s["expect"] for s in states}
+        need = {"ok": "Case", "null": "CellCase", "empty": "CellCase"}
+        if "range" in fams:
+            need["raise"] = "RangeCase"
+        for k, action in need.items():
+            if k not in seen:
+                raise tlc.MachineryError("vacuity: action %s never taken in run %s" % (action, label))
         out.append((label, [s for s in states if s["expect"] != "seed"]))
     return out
 
